@@ -739,6 +739,7 @@ def add_special_methods(draw, prog, rate=3):
     Methods are added, existing ones are not relabelled. Returns the list of placed kinds (for labels)."""
     placed = []
     n = [0]
+    steer = prog.get("_steer", {})
 
     def m(name, self_, params, ret, attr):
         return {"name": name, "attrs": ["#[diplomat::attr(auto, %s)]" % attr], "lifetimes": [], "self": self_, "params": params, "ret": ret}
@@ -768,7 +769,12 @@ def add_special_methods(draw, prog, rate=3):
                 ms = list(draw(st.permutations(pair)))[:draw(st.integers(1, 2))]
             elif what == "ctor":
                 ret = ["box", it["name"], []] if kind == "opaque" else ([kind, it["name"], []] if kind == "struct" else ["enum", it["name"]])
-                ms = [m("dv_ctor%d" % k, None, [["v", pt, []]], ret, draw(st.sampled_from(["constructor", 'named_constructor = "dv_named%d"' % k])))]
+                cparams = [["v", pt, []]]
+                if kind == "opaque" and not steer.get("no_self_ctor") and draw(st.integers(0, 3)) == 0:
+                    # a constructor that takes its own type (a parent / a value to copy)
+                    own = ["ref", None, False, it["name"], []]
+                    cparams.append(["parent", draw(st.sampled_from([own, ["opt", own, "std"]])), []])
+                ms = [m("dv_ctor%d" % k, None, cparams, ret, draw(st.sampled_from(["constructor", 'named_constructor = "dv_named%d"' % k])))]
                 if draw(st.booleans()):
                     ms.append(m("dv_ctor%db" % k, None, [], ["result", ret, ["unit"], "std"], 'named_constructor = "dv_fallible%d"' % k))
             elif what == "stringifier":
@@ -777,7 +783,9 @@ def add_special_methods(draw, prog, rate=3):
                 other = ["ref", None, False, it["name"], []] if kind == "opaque" else ["struct", it["name"], []]
                 ms = [m("dv_cmp%d" % k, ref_self, [["other", other, []]], ["ordering"], "comparison")]
             elif what == "indexer" and kind == "opaque":
-                ms = [m("dv_index%d" % k, ref_self, [["i", ["prim", "usize"], []]], ["opt", pt, "std"], "indexer")]
+                iret = draw(st.sampled_from(["opt", "opt", "plain"] + ([] if steer.get("no_fallible_indexer") else ["result"])))
+                iret = {"opt": ["opt", pt, "std"], "plain": pt, "result": ["result", pt, ["unit"], "std"]}[iret]
+                ms = [m("dv_index%d" % k, ref_self, [["i", ["prim", draw(st.sampled_from(["usize", "usize", "u8", "i32", "u64"]))], []]], iret, "indexer")]
             elif what == "iterator" and kind == "opaque":
                 ms = [m("dv_next%d" % k, ["ref", None, True], [], ["opt", pt, "std"], "iterator")]
             if ms:
